@@ -183,3 +183,20 @@ pub fn ends_in_rt_array(sd: &StructDef) -> bool {
 pub fn rid(name: &str) -> String {
     name.to_string()
 }
+
+/// Options for properties that do not study derives: every derive off, except encase when some
+/// emitted struct ends in a runtime-sized array (the generator documents a panic otherwise).
+/// encase 0.10 has no f64/bool support, so a shader needing encase whose host-shareable structs
+/// contain f64 or bool cannot compile under any option set that generates it: None (excluded).
+pub fn plain_opts(sh: &Shader) -> Option<crate::sut::Opts> {
+    let emitted = emitted_structs(sh);
+    let needs_encase = emitted.iter().any(|i| ends_in_rt_array(&sh.structs[*i]));
+    if needs_encase {
+        let host = host_shareable(sh);
+        let bad = host.iter().any(|i| Ty::St(*i).has_scalar(Sc::F64, &sh.structs) || Ty::St(*i).has_scalar(Sc::Bool, &sh.structs));
+        if bad {
+            return None;
+        }
+    }
+    Some(crate::sut::Opts { encase_host: needs_encase, ..Default::default() })
+}
